@@ -78,7 +78,15 @@ static void op_ppushm(actor *a, op_t *o)
             G.unit[o->a[k]].cur_pool = p;
         }
     uint64_t t0 = now_tick();
-    int rc = ABT_pool_push_threads(G.pool[p].h, ts, (size_t)n);
+    /* the op has no free argument slot: the first unit id selects the entry point
+     * (odd: ABT_pool_push_threads_ex with a tail-push context) */
+    int rc;
+    if (n && (ids[0] & 1)) {
+        rc = ABT_pool_push_threads_ex(G.pool[p].h, ts, (size_t)n, ctx_of((ids[0] & 2) ? 3 : 0));
+        stat_add("pool_push_many_ex", 1);
+    } else {
+        rc = ABT_pool_push_threads(G.pool[p].h, ts, (size_t)n);
+    }
     CHECK_RC(rc, "ABT_pool_push_threads");
     uint64_t t1 = now_tick();
     plog(a, "pushm", p, 0, t0, t1, ids, n);
